@@ -45,5 +45,28 @@ mod mkeymap;
 mod output;
 mod util;
 
+/// Verification hooks: thin re-exports of pure internal text functions (off by default)
+#[cfg(feature = "verif-hooks")]
+#[allow(missing_docs)]
+pub mod verif_hooks {
+    pub fn wrap(content: &str, hard_width: usize) -> String {
+        crate::output::textwrap::wrap(content, hard_width)
+    }
+
+    pub fn display_width(text: &str) -> usize {
+        crate::output::textwrap::core::display_width(text)
+    }
+
+    pub fn styled_wrap(content: &str, hard_width: usize) -> String {
+        let mut styled = crate::builder::StyledStr::from(content.to_owned());
+        styled.wrap(hard_width);
+        styled.as_styled_str().to_owned()
+    }
+
+    pub fn styled_display_width(content: &str) -> usize {
+        crate::builder::StyledStr::from(content.to_owned()).display_width()
+    }
+}
+
 const INTERNAL_ERROR_MSG: &str = "Fatal internal error. Please consider filing a bug \
                                   report at https://github.com/clap-rs/clap/issues";
